@@ -357,6 +357,8 @@ def load_contract_module(ct, reg, path, modname):
                     if d.func.id == 'contract' and con.attrs.get('loops_only'):
                         reg.loop_contracts[target] = con
                     elif d.func.id == 'contract':
+                        if target in reg.contracts:     # a silent override would change what other proofs assume
+                            reg.duplicates.append((target, reg.contracts[target].module, modname))
                         reg.contracts[target] = con
                     else:
                         reg.ext_contracts[target] = con
